@@ -64,6 +64,20 @@ CLAIMS = {
           "sets incl. an 11-row-group dataset; categorical lists {ab, xy, abc, ba}, <= 2 rows per batch, <= 2 (3) batches. "
           "Known finding KF-C07-1 (categoricals relabelled by the last dictionary) is matched by model prediction."),
     technique="TLA+ specs + TLC model checking; spec->code history replay; code->spec call-trace validation"),
+ "C18": dict(
+    level="model_checking",
+    text=("SingleFile.tla has explicit AppFail (exception at every (row group, column) position after the earlier chunks "
+          "were written) and AppRefuse actions; TLC checks Openable/RowsReadable/FailureKeepsVersion with the restoring "
+          "variant and that the non-restoring mutant violates them; Dataset.tla's Fault at a part-file write step models a "
+          "mid-write rejection in a multi-file append. All failing histories TLC enumerates are replayed on real files "
+          "(un-encodable value or unknown per-column codec at that position; other columns/scheme) and directories, and a "
+          "catalogue of every refusal kind of the statement is executed against five existing dataset states; after each, "
+          "the dataset must open and hold exactly its previous content."),
+    design_ref="DESIGN.md section 5 C18, section 10",
+    note=("Content (rows, row-group count, key-value metadata) is compared, not bytes, for multi-file datasets: orphan "
+          "part files of a refused operation are allowed. A 'different file scheme' append to a file without row groups "
+          "is not required to be refused."),
+    technique="TLA+ spec with failure actions + TLC; spec->code replay of failing histories; refusal catalogue"),
 }
 
 NOT_BUILT = "not built yet (construction order in DESIGN.md section 9)"
